@@ -57,6 +57,98 @@ def s_alpn(vc):
     vc.ensure("http_only_by_default", Implies(And(c_none, Or(s_none, r != sv)), in_const(r, HTTP_ALL)))
 
 
+from props.prelude import *
+
+
+def bounded(tier, seed):
+    """All offer lists up to length 3 over 7 protocol classes x forced/upstream ALPN states x http2, on the real callback."""
+    import itertools
+    from OpenSSL import SSL
+    from mitmproxy.addons import tlsconfig
+
+    b = Bounded()
+    protos = [b"h2", b"http/1.1", b"http/1.0", b"h3", b"spdy/3", b"", b"foo"]
+    states = [None, b"", b"h2", b"http/1.1", b"foo"]
+    maxlen = 3 if tier == "quick" else 4
+    b.rule = "alpn_select_callback on every offer list (<= %d protocols over 7 classes incl. empty and unknown) x client_alpn in 5 states x server_alpn in 5 states x http2; distinct = argument tuple; non-trivial = non-empty offers" % maxlen
+    b.bound = f"offer lists of length <= {maxlen}"
+    b.exhaustive = True
+
+    class Conn:
+        def __init__(self, d):
+            self.d = d
+
+        def get_app_data(self):
+            return self.d
+
+    for n in range(0, maxlen + 1):
+        for offers in itertools.product(protos, repeat=n):
+            for ca in states:
+                for sa in states:
+                    for http2 in (True, False):
+                        r = tlsconfig.alpn_select_callback(Conn(dict(client_alpn=ca, server_alpn=sa, http2=http2)), list(offers))
+                        b.case((offers, ca, sa, http2), nontrivial=n > 0)
+                        inp = {"offers": [o.decode() for o in offers], "client_alpn": None if ca is None else ca.decode(), "server_alpn": None if sa is None else sa.decode(), "http2": http2}
+                        none = r is SSL.NO_OVERLAPPING_PROTOCOLS
+                        if not none and r not in offers:
+                            b.fail("alpn.offered", inp, repr(r))
+                        if ca is not None and not none and r != ca:
+                            b.fail("alpn.forced", inp, repr(r))
+                        if ca is None and sa is not None and not none and r != sa:
+                            if sa != b"" and sa not in offers:
+                                b.fail("alpn.upstream_known[KF-C18-1]", inp, repr(r))
+                            else:
+                                b.fail("alpn.upstream_known", inp, repr(r))
+                        if not http2 and ca is None and sa != b"h2" and r == b"h2":
+                            b.fail("alpn.no_h2_when_disabled", inp, repr(r))
+                        if none and ca is None and (sa is None or (sa != b"" and sa not in offers)):
+                            acc = (b"h3", b"h2", b"http/1.1", b"http/1.0", b"http/0.9") if http2 else (b"http/1.1", b"http/1.0", b"http/0.9")
+                            if any(o in acc for o in offers):
+                                b.fail("alpn.none_only_if_nothing_acceptable", inp, "none although an HTTP protocol was offered")
+    _bounded_app_data(b)
+    return b
+
+
+def _bounded_app_data(b):
+    """Clause 4 (secure web proxy outer connection => only HTTP/1.1) on the real TlsConfig.tls_start_client: the AppData handed
+    to the callback has client_alpn = b'http/1.1' iff the layer stack is [HttpProxy, <tls layer>], else client.alpn."""
+    import asyncio
+    from mitmproxy.addons import tlsconfig
+    from mitmproxy.test import taddons
+    from mitmproxy.proxy import context as pctx
+    from mitmproxy.proxy.layers import modes
+    from mitmproxy import connection, tls
+
+    async def run():
+        import tempfile
+
+        ta = tlsconfig.TlsConfig()
+        with taddons.context(ta) as tctx, tempfile.TemporaryDirectory() as confdir:
+            tctx.configure(ta, confdir=confdir)
+            for outer in (True, False):
+                for calpn in (None, b"h2", b"http/1.1"):
+                    for salpn in (None, b"", b"h2"):
+                        for http2 in (True, False):
+                            tctx.configure(ta, http2=http2)
+                            c = connection.Client(peername=("127.0.0.1", 1), sockname=("127.0.0.1", 8080), timestamp_start=1.0)
+                            c.alpn = calpn
+                            ctx = pctx.Context(c, tctx.options)
+                            ctx.server.alpn = salpn
+                            ctx.layers = [modes.HttpProxy(ctx), 123] if outer else [modes.ReverseProxy(ctx), 123]
+                            ts = tls.TlsData(ctx.client, context=ctx)
+                            ta.tls_start_client(ts)
+                            ad = ts.ssl_conn.get_app_data()
+                            inp = {"outer": outer, "client.alpn": calpn and calpn.decode(), "server.alpn": salpn if salpn is None else salpn.decode(), "http2": http2}
+                            b.case(("appdata", outer, calpn, salpn, http2))
+                            want = b"http/1.1" if outer else calpn
+                            if ad["client_alpn"] != want:
+                                b.fail("alpn.appdata.forced_http11_on_secure_web_proxy", inp, repr(ad))
+                            if ad["server_alpn"] != salpn or ad["http2"] != http2:
+                                b.fail("alpn.appdata.passthrough", inp, repr(ad))
+
+    asyncio.run(run())
+
+
 def _no_http_option(vc, options, http2):
     """no element of options is an acceptable HTTP ALPN"""
     if vc.mode == "native":
